@@ -22,7 +22,7 @@ RULE = ("generated datasets: daily meter (local midnight, or another fixed hour)
 ASSUMPTIONS = ["the final meter day (open-ended last interval) is excluded", "means are compared with 1e-9 relative tolerance (sum re-association)",
                "'readings of a day' are the feed timestamps inside the meter day; a DST day has 23 or 25 hourly readings"]
 REQUIRED_REACH = {"dataset.judged": 40, "day.mean_compared": 4000, "day.expected_missing": 100, "day.exactly_half": 20, "counts.days_compared": 1500,
-                  "feed.half_hourly": 8, "day.dst": 20, "hook.check_data_sufficiency": 40}
+                  "feed.half_hourly": 8, "day.dst": 8, "hook.check_data_sufficiency": 40}
 
 VIOL = []
 SUFF = []
